@@ -1,11 +1,14 @@
 package pairs
 
 import (
-	utils "github.com/comdex-official/comdex/types"
-	sdk "github.com/cosmos/cosmos-sdk/types"
 	"flag"
 	"fmt"
+	utils "github.com/comdex-official/comdex/types"
+	sdk "github.com/cosmos/cosmos-sdk/types"
 	"os"
+	"reflect"
+	"time"
+	"vh/sim"
 )
 
 // Main dispatches the sub-commands of `vh pairs`.
@@ -17,6 +20,8 @@ func Main(args []string) int {
 	switch args[0] {
 	case "dev":
 		return devMain(args[1:])
+	case "roundtrip":
+		return roundtripMain(args[1:])
 	}
 	fmt.Fprintln(os.Stderr, "unknown sub-command", args[0])
 	return 2
@@ -26,7 +31,21 @@ func devMain(args []string) int {
 	fs := flag.NewFlagSet("dev", flag.ExitOnError)
 	seed := fs.Int64("seed", 1, "")
 	rt := fs.Bool("rt", false, "round trip at the end")
+	getters := fs.Bool("getters", false, "list discovered getters")
+	show := fs.Bool("show", false, "show differing values")
 	_ = fs.Parse(args)
+	if *getters {
+		c := NewFresh(Funds())
+		for _, ck := range Components {
+			k := ck.Keeper(c.App)
+			fmt.Println("==", ck.Comp, len(getterMethods(k)))
+			for _, n := range getterMethods(k) {
+				m, _ := reflect.TypeOf(k).MethodByName(n)
+				fmt.Println("   ", n, m.Type.NumIn()-2)
+			}
+		}
+		return 0
+	}
 	g := NewGen(*seed)
 	g.Trace = func(g *Gen) {
 		ctx := g.ctx()
@@ -74,6 +93,22 @@ func devMain(args []string) int {
 		for _, d := range DiffStores(g.C, cp) {
 			fmt.Printf("%-16s same=%d lost=%d%v extra=%d%v changed=%d%v\n", d.Store, d.NSame, d.NLost, d.Lost, d.NExtra, d.Extra, d.NChg, d.Changed)
 		}
+		t0 := time.Now()
+		for n := 0; n < 10; n++ {
+			Observe(g.C)
+		}
+		fmt.Println("observe x10", time.Since(t0))
+		po, pc := Observe(g.C), Observe(cp)
+		for k := range po {
+			d := diffParts(po[k], pc[k])
+			if d.Sym != "same" {
+				fmt.Printf("DIFF %s.%s %+v  o.n=%d c.n=%d o.s=%d c.s=%d\n", po[k].Comp, po[k].Name, d, po[k].N, pc[k].N, po[k].Scalar, pc[k].Scalar)
+				if *show {
+					fmt.Printf("   O: %.1500s\n   C: %.1500s\n", po[k].Raw, pc[k].Raw)
+				}
+			}
+		}
+		fmt.Println("parts", len(po))
 		return 0
 	}
 	for b, rs := range g.Res {
@@ -82,5 +117,39 @@ func devMain(args []string) int {
 			fmt.Printf("  %-24s ok=%v code=%s gas=%d %s\n", r.Tag, r.OK, r.Code, r.Gas, r.Err)
 		}
 	}
+	return 0
+}
+
+func roundtripMain(args []string) int {
+	fs := flag.NewFlagSet("roundtrip", flag.ExitOnError)
+	seed := fs.Int64("seed", 1, "")
+	out := fs.String("out", "genesis.ndjson", "tree log")
+	every := fs.Int("every", 4, "round trip after every n-th block")
+	tail := fs.Int("tail", 0, "random tail blocks")
+	_ = fs.Parse(args)
+	lg := &sim.Log{}
+	var stt RTStats
+	run := fmt.Sprintf("wl:%d", *seed)
+	g := NewGen(*seed)
+	g.Base()
+	g.Tail(*tail)
+	root := lg.Add(0, run, "Init", map[string]interface{}{"seed": *seed, "blocks": len(g.W.Blocks)}, nil, map[string]interface{}{"h": 1})
+	o := NewFresh(Funds())
+	parent := root
+	Replay(o, g.W, func(b BlockOut) bool {
+		if b.Begin.Panic || b.End.Panic {
+			lg.Add(parent, run, "Halt", map[string]interface{}{"k": b.Index, "h": b.Height}, b, map[string]interface{}{"h": b.Height})
+			return false
+		}
+		if (b.Index+1)%*every == 0 || b.Index == len(g.W.Blocks)-1 {
+			parent = RoundTrip(o, lg, parent, run, map[string]interface{}{"k": b.Index, "h": b.Height}, true, &stt)
+		}
+		return true
+	})
+	if err := lg.Write(*out); err != nil {
+		fmt.Fprintln(os.Stderr, err)
+		return 1
+	}
+	fmt.Printf("roundtrip: nodes=%d %+v\n", len(lg.Nodes), stt)
 	return 0
 }
